@@ -13,7 +13,7 @@ use crate::case::{non_object_json, Face};
 use crate::disk::{Pend, Policy, SimDisk, Xfer};
 use crate::rng::{hash_str, Rng};
 use crate::scen::{case_sig, from_value, shrink_policy, to_value, Ctx, Scenario, Tier};
-use crate::scen_stream::{draw_entries, draw_spec_header, entries_to_crate, header_from_spec};
+use crate::scen_stream::{draw_spec_header, entries_to_crate, header_from_spec};
 use crate::spec::{self, SpecEntry, SpecHeader};
 use crate::sut::{self, Violation, V};
 use crate::{ensure, vio};
